@@ -16,6 +16,9 @@ pub struct Unit {
     pub count: usize,
     /// inject a single RPC failure in every case of this unit
     pub with_failure: bool,
+    /// cancel every party of one session at a generated step
+    #[serde(default)]
+    pub with_cancel: bool,
 }
 
 pub fn test_case(b: &Case) -> Result<CaseInfo, Fail> {
@@ -38,6 +41,51 @@ pub fn test_case(b: &Case) -> Result<CaseInfo, Fail> {
         }
     }
     let failure = b.fail.is_some() && obs.sessions.iter().any(|s| s.failed_rpc_fired);
+    if let Some((cs, _)) = b.cancel {
+        // (4) a whole session cancelled: once every cancel returned Ok, its state machines have stopped,
+        // every destination got at most one notification, the other sessions are undisturbed and, when
+        // everything has ended, the whole budget is back
+        let s = &obs.sessions[cs];
+        let all_ok = s.cancels.iter().all(|c| matches!(c, Some(Ok(()))));
+        let mut undecided = false;
+        if all_ok {
+            if let Some(p) = s.actor_finished.iter().position(|x| !*x) {
+                return Err(Fail::new("C17|cancelled-but-running", format!("session {cs}: every cancel returned Ok but the state machine of party {p} is still running (permits {:?})", obs.permits)));
+            }
+            for p in 0..n {
+                let k = s.outputs.iter().filter(|o| o.0 == p).count();
+                if k > 1 {
+                    return Err(Fail::new("C17|cancel-second-notification", format!("session {cs}: party {p}'s destination received {k} notifications: {:?}", s.outputs.iter().filter(|o| o.0 == p).map(|o| &o.1).collect::<Vec<_>>())));
+                }
+            }
+        } else {
+            undecided = true;
+        }
+        for (si, s2) in obs.sessions.iter().enumerate() {
+            if si == cs {
+                continue;
+            }
+            let cfg = &b.sessions[si];
+            let want = cfg.expected();
+            for p in 0..n {
+                let outs: Vec<_> = s2.outputs.iter().filter(|o| o.0 == p).collect();
+                if cfg.outputs[p] && !matches!(outs.as_slice(), [(_, Ok(l), _)] if *l == want) {
+                    return Err(Fail::new("C17|other-session-disturbed", format!("session {si} (not cancelled) party {p}: expected exactly one result {want}, got {:?}", outs.iter().map(|o| &o.1).collect::<Vec<_>>())));
+                }
+            }
+        }
+        let everything_ended = obs.sessions.iter().all(|s| s.actor_finished.iter().all(|x| *x));
+        if everything_ended && obs.permits.iter().any(|p| *p != b.concurrency) {
+            return Err(Fail::new("C17|permit-leak-after-cancel", format!("all policies ended (session {cs} cancelled) but the permits are {:?} of {}", obs.permits, b.concurrency)));
+        }
+        return Ok(CaseInfo {
+            nontrivial: all_ok.then(|| hash_of(&serde_json::to_string(b).unwrap())),
+            classes: vec![format!("sessions={}", b.sessions.len()), "cancelled-session".into(), if all_ok { "all-cancels-ok".into() } else { "some-cancel-not-ok".into() }],
+            sample: Some(json!({"sessions": b.sessions.len(), "concurrency": b.concurrency, "cancel": b.cancel, "cancel_results": s.cancels, "permits_end": obs.permits})),
+            undecided,
+            ..Default::default()
+        });
+    }
     if !failure {
         // (2) undisturbed batch: everything ends, all permits back, exactly one correct result per destination
         for (si, s) in obs.sessions.iter().enumerate() {
@@ -139,14 +187,17 @@ pub fn gen_batch(m: &mut Mix, with_failure: bool, max_sessions: usize, n: usize)
         None
     };
     let script: Vec<u8> = (0..m.below(200)).map(|_| m.next() as u8).collect();
-    Batch { n, concurrency, sessions, script, fail }
+    Batch { n, concurrency, sessions, script, fail, cancel: None }
 }
 
 fn run_unit(u: &Unit, emit: &mut dyn FnMut(UnitResult)) {
     let mut m = Mix(u.seed);
     for _ in 0..u.count {
         let n = if u.with_failure && u.seed % 2 == 1 { 3 } else { 2 };
-        let b = gen_batch(&mut m, u.with_failure, if u.with_failure { if n == 3 { 2 } else { 3 } } else { 8 }, n);
+        let mut b = gen_batch(&mut m, u.with_failure, if u.with_failure { if n == 3 { 2 } else { 3 } } else if u.with_cancel { 4 } else { 8 }, n);
+        if u.with_cancel {
+            b.cancel = Some((m.below(b.sessions.len()), m.below(14)));
+        }
         match test_case(&b) {
             Ok(i) => emit(UnitResult::Ok(i)),
             Err(f) => emit(UnitResult::Fail(f, serde_json::to_value(&b).unwrap())),
@@ -157,8 +208,9 @@ fn run_unit(u: &Unit, emit: &mut dyn FnMut(UnitResult)) {
 pub fn units(tier: Tier, seed: u64) -> Vec<Unit> {
     let mut v = vec![];
     for k in 0..32u64 {
-        v.push(Unit { seed: seed.wrapping_mul(7919).wrapping_add(k), count: tier.pick(4, 40), with_failure: false });
-        v.push(Unit { seed: seed.wrapping_mul(104729).wrapping_add(k), count: tier.pick(8, 60), with_failure: true });
+        v.push(Unit { seed: seed.wrapping_mul(7919).wrapping_add(k), count: tier.pick(4, 40), with_failure: false, with_cancel: false });
+        v.push(Unit { seed: seed.wrapping_mul(104729).wrapping_add(k), count: tier.pick(8, 60), with_failure: true, with_cancel: false });
+        v.push(Unit { seed: seed.wrapping_mul(1299709).wrapping_add(k), count: tier.pick(6, 50), with_failure: false, with_cancel: true });
     }
     v
 }
@@ -168,7 +220,7 @@ pub fn run(tier: Tier, seed: u64) -> i32 {
         return run_worker(units(tier, seed), k, of, run_unit);
     }
     let ctx = Ctx::new("C17", tier, seed, "fault_enumeration");
-    ctx.set_rule("generated batches (seeded SplitMix from VERIF_SEED): 1..8 two-party policies in flight at once sharing one semaphore per party, concurrency 1..3, mixed leaders, constants from none/some parties, destination present or absent, random interleaving of all sessions' schedule calls and coordination RPC deliveries (choice vector); second family: 1..3 two-party or 1..2 three-party policies with a failure injected into one validate / run / consts RPC (for three parties: towards one of the two peers only); oracle: (1) per party, the number of sessions it leads whose interval [first run sent, leader's last activity] overlaps never exceeds the concurrency; (2) undisturbed batch: exactly one correct result per destination, every state machine stopped, every semaphore full at exact quiescence; (3) failed RPC: the caller's state machine has stopped, its destination received at most one notification and (run/consts) exactly one error, a failed validate is reported by the schedule call, and the caller's budget is complete; the callee side may linger; non-trivial = batch with >= 2 sessions or a fired failure; distinct by hash of the batch");
+    ctx.set_rule("generated batches (seeded SplitMix from VERIF_SEED): 1..8 two-party policies in flight at once sharing one semaphore per party, concurrency 1..3, mixed leaders, constants from none/some parties, destination present or absent, random interleaving of all sessions' schedule calls and coordination RPC deliveries (choice vector); second family: 1..3 two-party or 1..2 three-party policies with a failure injected into one validate / run / consts RPC (for three parties: towards one of the two peers only); oracle: (1) per party, the number of sessions it leads whose interval [first run sent, leader's last activity] overlaps never exceeds the concurrency; (2) undisturbed batch: exactly one correct result per destination, every state machine stopped, every semaphore full at exact quiescence; (3) failed RPC: the caller's state machine has stopped, its destination received at most one notification and (run/consts) exactly one error, a failed validate is reported by the schedule call, and the caller's budget is complete; the callee side may linger; third family: 1..4 policies of which one is cancelled at every party at a generated step - (4) once every cancel returned Ok the session's state machines have stopped, no destination got a second notification, the other sessions still deliver their correct results and, when everything has ended, all permits are back; non-trivial = batch with >= 2 sessions or a fired failure; distinct by hash of the batch");
     let n_units = units(tier, seed).len();
     ctx.extra("work_units", json!(n_units));
     run_parent(&ctx, "C17", n_units);
